@@ -159,8 +159,25 @@ class Inliner:
         self.log: list[str] = []
 
     # -- candidates ---------------------------------------------------------------------
+    def _aliased_known(self) -> set:
+        """module-level functions that a class keeps under the name of a method of the confirmed tree (`_add = staticmethod(_update)`): the
+        method moved out of its class; it is the known function, not a new helper"""
+        if not hasattr(self, '_alias_cache'):
+            out = set()
+            for c in self.tree.body:
+                if isinstance(c, ast.ClassDef):
+                    for st in c.body:
+                        if isinstance(st, ast.Assign) and len(st.targets) == 1 and isinstance(st.targets[0], ast.Name):
+                            v = st.value
+                            if isinstance(v, ast.Call) and isinstance(v.func, ast.Name) and v.func.id in ('staticmethod', 'classmethod') and len(v.args) == 1:
+                                v = v.args[0]
+                            if isinstance(v, ast.Name) and f'{c.name}.{st.targets[0].id}' in (self.baseline or ()):
+                                out.add(v.id)
+            self._alias_cache = out
+        return self._alias_cache
+
     def eligible(self, fn: ast.FunctionDef, qual: str) -> bool:
-        if self.baseline is None or qual in self.baseline:
+        if self.baseline is None or qual in self.baseline or qual in self._aliased_known():
             return False
         if isinstance(fn, ast.AsyncFunctionDef) or fn.args.vararg or fn.args.kwarg:
             return False
